@@ -103,4 +103,243 @@ theorem find_filter_le : ∀ (fr : List (Nat × Nat)) (l D : Nat),
 theorem get_backTo {ds : DS} {l D : Nat} (h : ds.get l = some D) : (ds.backTo l D).get l = some D :=
   find_filter_le ds.fr l D h
 
+/-! ### stack discipline: while a term is evaluated, the continuation it was given stays underneath -/
+
+/-- `k` is `K` with further continuations pushed on top -/
+inductive Ext (K : Cont σ V P) : Cont σ V P → Prop
+  | refl : Ext K K
+  | loopK {n c p b k} : Ext K k → Ext K (.loopK n c p b k)
+  | combK {b k} : Ext K k → Ext K (.combK b k)
+
+/-- strictly more than `K` -/
+inductive SExt (K : Cont σ V P) : Cont σ V P → Prop
+  | loopK {n c p b k} : Ext K k → SExt K (.loopK n c p b k)
+  | combK {b k} : Ext K k → SExt K (.combK b k)
+
+theorem Ext.loops {K k : Cont σ V P} (h : Ext K k) : K.loops ≤ k.loops := by
+  induction h with
+  | refl => exact Nat.le_refl _
+  | loopK _ ih => simp only [Cont.loops]; omega
+  | combK _ ih => simpa [Cont.loops] using ih
+
+/-- the machine is evaluating something whose continuation is (an extension of) `K`, and has not come back
+    to `K` yet -/
+def Above (K : Cont σ V P) : Cfg σ V P → Prop
+  | .eval _ k _ => Ext K k
+  | .apply k _ _ _ => SExt K k
+  | .loop _ _ _ _ k _ _ => Ext K k
+  | _ => False
+
+theorem ext_cases {K k : Cont σ V P} (h : Ext K k) : k = K ∨ SExt K k := by
+  cases h with
+  | refl => exact .inl rfl
+  | loopK h => exact .inr (.loopK h)
+  | combK h => exact .inr (.combK h)
+
+/-- one transition from inside: still inside, or back at `K`, or the advance is over -/
+theorem above_step [Inhabited V] (N : Nat) (K : Cont σ V P) (c : Cfg σ V P) (h : Above K c) :
+    Above K (step N c) ∨ (∃ s v st, step N c = .apply K s v st) ∨ (step N c).final = true := by
+  cases c with
+  | eval t k st =>
+    cases t with
+    | sig s v =>
+      rcases ext_cases h with rfl | hs
+      · exact .inr (.inl ⟨s, v, st, rfl⟩)
+      · exact .inl hs
+    | bind v f g => exact .inr (.inr rfl)
+    | delay f g => exact .inl h
+    | combine a b => exact .inl (Ext.combK h)
+    | loop c p body => exact .inl h
+    | panic e => exact .inr (.inr rfl)
+  | apply k s v st =>
+    cases h with
+    | loopK hk =>
+      cases s with
+      | normal => exact .inl hk
+      | cont => exact .inl hk
+      | brk =>
+        rcases ext_cases hk with rfl | hs
+        · exact .inr (.inl ⟨_, _, _, rfl⟩)
+        · exact .inl hs
+      | ret =>
+        rcases ext_cases hk with rfl | hs
+        · exact .inr (.inl ⟨_, _, _, rfl⟩)
+        · exact .inl hs
+    | combK hk =>
+      simp only [step]
+      split
+      · exact .inl hk
+      · rcases ext_cases hk with rfl | hs
+        · exact .inr (.inl ⟨_, _, _, rfl⟩)
+        · exact .inl hs
+  | loop n c p body k skip st =>
+    cases n with
+    | zero => exact .inr (.inr rfl)
+    | succ n =>
+      simp only [step]
+      split
+      · rcases ext_cases h with rfl | hs
+        · exact .inr (.inl ⟨_, _, _, rfl⟩)
+        · exact .inl hs
+      · exact .inr (.inr rfl)
+      · exact .inl (Ext.loopK h)
+  | halt st cell r => exact absurd h (by simp [Above])
+  | panicked e st => exact absurd h (by simp [Above])
+  | oob => exact absurd h (by simp [Above])
+
+/-! ### evaluating a term never touches the loop frames registered below its continuation -/
+
+theorem find_filter_of {q : Nat × Nat → Bool} : ∀ (fr : List (Nat × Nat)) (l : Nat),
+    (∀ e : Nat × Nat, e.1 = l → q e = true) →
+    (fr.filter q).find? (fun e => e.1 = l) = fr.find? (fun e => e.1 = l)
+  | [], _, _ => rfl
+  | e :: r, l, hq => by
+      by_cases he : e.1 = l
+      · rw [List.filter_cons_of_pos (hq e he), List.find?_cons_of_pos (h := by simpa using he),
+          List.find?_cons_of_pos (h := by simpa using he)]
+      · rw [List.find?_cons_of_neg (h := by simpa using he)]
+        by_cases hqe : q e = true
+        · rw [List.filter_cons_of_pos hqe, List.find?_cons_of_neg (h := by simpa using he)]
+          exact find_filter_of r l hq
+        · rw [List.filter_cons_of_neg hqe]
+          exact find_filter_of r l hq
+
+theorem get_enter_below (ds : DS) {l lvl : Nat} (D : Nat) (h : l < lvl) : (ds.enter lvl D).get l = ds.get l := by
+  unfold DS.get DS.enter
+  simp only
+  rw [List.find?_cons_of_neg (h := by simp; omega)]
+  rw [find_filter_of ds.fr l (fun e he => by simp; omega)]
+
+theorem get_backTo_below (ds : DS) {l lvl : Nat} (D : Nat) (h : l < lvl) : (ds.backTo lvl D).get l = ds.get l := by
+  unfold DS.get DS.backTo
+  simp only
+  rw [find_filter_of ds.fr l (fun e he => by simp; omega)]
+
+theorem stepDS_below [Inhabited V] (N : Nat) (K : Cont σ V P) (c : Cfg σ V P) (ds : DS) (h : Above K c)
+    (hnf : (step N c).final = false) (l : Nat) (hl : l < K.loops) : (stepDS c ds).get l = ds.get l := by
+  cases c with
+  | eval t k st =>
+    cases t with
+    | sig s v => rfl
+    | bind v f g => simp [step, Cfg.final] at hnf
+    | delay f g => rfl
+    | combine a b => rfl
+    | loop c p body =>
+      have := Ext.loops h
+      exact get_enter_below ds _ (by omega)
+    | panic e => simp [step, Cfg.final] at hnf
+  | apply k s v st =>
+    cases h with
+    | loopK hk =>
+      have := Ext.loops hk
+      cases s with
+      | normal =>
+        simp only [stepDS]
+        split
+        · exact get_backTo_below ds _ (by omega)
+        · exact get_enter_below ds _ (by omega)
+      | cont =>
+        simp only [stepDS]
+        split
+        · exact get_backTo_below ds _ (by omega)
+        · exact get_enter_below ds _ (by omega)
+      | brk => rfl
+      | ret => rfl
+    | combK hk => rfl
+  | loop n c p body k skip st => rfl
+  | halt st cell r => exact absurd h (by simp [Above])
+  | panicked e st => exact absurd h (by simp [Above])
+  | oob => exact absurd h (by simp [Above])
+
+/-- the frame of the loop stays registered from the start of its body until the body's continuation is applied -/
+theorem frame_kept [Inhabited V] (N : Nat) (n : Nat) (c : Option (σ → CondR P × σ))
+    (p : Option (σ → Option P × σ)) (body : Term σ V P) (k : Cont σ V P) (st : σ) (ds : DS) (D : Nat)
+    (hD : ds.get k.loops = some D) (m : Nat) (s : Sig) (v : V) (st' : σ)
+    (hpath : ∀ j, j < m → (run N j (.eval body (.loopK n c p body k) st)).final = false ∧
+      ∀ s v st1, run N j (.eval body (.loopK n c p body k) st) ≠ .apply (.loopK n c p body k) s v st1)
+    (hret : run N m (.eval body (.loopK n c p body k) st) = .apply (.loopK n c p body k) s v st') :
+    (runD N m (.eval body (.loopK n c p body k) st, ds)).2.get k.loops = some D := by
+  let K : Cont σ V P := .loopK n c p body k
+  let c0 : Cfg σ V P := .eval body K st
+  have habove : ∀ j, j < m → Above K (run N j c0) := by
+    intro j
+    induction j with
+    | zero => intro _; exact Ext.refl
+    | succ j ih =>
+      intro hj
+      have hprev := ih (by omega)
+      have hstep : run N (j + 1) c0 = step N (run N j c0) := by
+        rw [run_add N j 1 c0]; rfl
+      rcases above_step N K (run N j c0) hprev with ha | ⟨s', v', st'', he⟩ | hf
+      · rw [hstep]; exact ha
+      · exact absurd (hstep.trans he) ((hpath (j + 1) hj).2 s' v' st'')
+      · have := (hpath (j + 1) hj).1
+        rw [hstep, hf] at this; cases this
+  have hkeep : ∀ j, j ≤ m → (runD N j (c0, ds)).2.get k.loops = some D := by
+    intro j
+    induction j with
+    | zero => intro _; exact hD
+    | succ j ih =>
+      intro hj
+      have hprev := ih (by omega)
+      have hsplit : runD N (j + 1) (c0, ds) = stepD N (runD N j (c0, ds)) := by
+        rw [runD_add N j 1 (c0, ds)]; rfl
+      rw [hsplit]
+      show (stepDS (runD N j (c0, ds)).1 (runD N j (c0, ds)).2).get k.loops = some D
+      rw [runD_erasure]
+      have hnf : (step N (run N j c0)).final = false := by
+        have hstep : run N (j + 1) c0 = step N (run N j c0) := by rw [run_add N j 1 c0]; rfl
+        by_cases hjm : j + 1 = m
+        · rw [← hstep, hjm, hret]; rfl
+        · rw [← hstep]; exact (hpath (j + 1) (by omega)).1
+      rw [stepDS_below N K (run N j c0) _ (habove j (by omega)) hnf k.loops (by simp [K, Cont.loops])]
+      exact hprev
+  exact hkeep m (Nat.le_refl _)
+
+/-- **stack discipline**: from the start of a loop body until its continuation is applied - however long
+    that takes, whatever the body is (nested loops, combines, thunks building new terms) - the registered frame
+    of the loop stays registered, so the completion of the body continues at the depth of that frame. -/
+theorem head_depth_invariant [Inhabited V] (N : Nat) (n : Nat) (c : Option (σ → CondR P × σ))
+    (p : Option (σ → Option P × σ)) (body : Term σ V P) (k : Cont σ V P) (st : σ) (ds : DS) (D : Nat)
+    (hD : ds.get k.loops = some D) (m : Nat) (s : Sig) (v : V) (st' : σ)
+    (hpath : ∀ j, j < m → (run N j (.eval body (.loopK n c p body k) st)).final = false ∧
+      ∀ s v st1, run N j (.eval body (.loopK n c p body k) st) ≠ .apply (.loopK n c p body k) s v st1)
+    (hret : run N m (.eval body (.loopK n c p body k) st) = .apply (.loopK n c p body k) s v st')
+    (hs : s = .normal ∨ s = .cont) :
+    (runD N (m + 1) (.eval body (.loopK n c p body k) st, ds)).2.d = D := by
+  have hk := frame_kept N n c p body k st ds D hD m s v st' hpath hret
+  have hsplit : runD N (m + 1) (.eval body (.loopK n c p body k) st, ds)
+      = stepD N (runD N m (.eval body (.loopK n c p body k) st, ds)) := by
+    rw [runD_add N m 1]; rfl
+  rw [hsplit]
+  show (stepDS (runD N m (.eval body (.loopK n c p body k) st, ds)).1 _).d = D
+  rw [runD_erasure, hret]
+  exact stepDS_trampoline n c p body k s hs v st' _ D hk
+
+/-- … and the loop is back at its head, in its frame, with the frame still registered: the hypotheses of the
+    next iteration hold again, for as many iterations as there are -/
+theorem iteration_returns_to_frame [Inhabited V] (N : Nat) (n : Nat) (c : Option (σ → CondR P × σ))
+    (p : Option (σ → Option P × σ)) (body : Term σ V P) (k : Cont σ V P) (st : σ) (ds : DS) (D : Nat)
+    (hD : ds.get k.loops = some D) (m : Nat) (s : Sig) (v : V) (st' : σ)
+    (hpath : ∀ j, j < m → (run N j (.eval body (.loopK n c p body k) st)).final = false ∧
+      ∀ s v st1, run N j (.eval body (.loopK n c p body k) st) ≠ .apply (.loopK n c p body k) s v st1)
+    (hret : run N m (.eval body (.loopK n c p body k) st) = .apply (.loopK n c p body k) s v st')
+    (hs : s = .normal ∨ s = .cont) :
+    (runD N (m + 1) (.eval body (.loopK n c p body k) st, ds)).1 = .loop n c p body k false st' ∧
+    (runD N (m + 1) (.eval body (.loopK n c p body k) st, ds)).2.d = D ∧
+    (runD N (m + 1) (.eval body (.loopK n c p body k) st, ds)).2.get k.loops = some D := by
+  have hd := head_depth_invariant N n c p body k st ds D hD m s v st' hpath hret hs
+  refine ⟨?_, hd, ?_⟩
+  · rw [runD_erasure, run_add N m 1, hret]
+    rcases hs with rfl | rfl <;> rfl
+  · -- the last step was the trampoline `backTo`, which keeps the entry
+    have hsplit : runD N (m + 1) (.eval body (.loopK n c p body k) st, ds)
+        = stepD N (runD N m (.eval body (.loopK n c p body k) st, ds)) := by
+      rw [runD_add N m 1]; rfl
+    rw [hsplit]
+    show (stepDS (runD N m (.eval body (.loopK n c p body k) st, ds)).1 _).get k.loops = some D
+    rw [runD_erasure, hret]
+    have hk := frame_kept N n c p body k st ds D hD m s v st' hpath hret
+    rcases hs with rfl | rfl <;> simp [stepDS, hk, get_backTo hk]
+
 end GoCo
